@@ -1,7 +1,9 @@
 """C19: transform objects are reusable - every call returns what a fresh object returns, after any call history."""
+import re
 from .. import nttcheck, nttrules, front
 from ..nttcheck import Runner, log2
 from ..interp import Ptr, Region
+from ..poly import FV
 
 LEVEL = 'model_checking'
 
@@ -25,6 +27,10 @@ def state_key(W, this):
                     body.append((o, 'null'))
                 else:
                     body.append((o, ('ptr', ser(v.reg), v.off, v.reg.freed, v.reg.extent)))
+            elif isinstance(v, FV) and not v.nf.isconst():
+                # data left over from an earlier call (a scratch buffer the object keeps): which data it is does not make a
+                # new object state - the tables the calls depend on hold constants
+                body.append((o, 'data'))
             else:
                 body.append((o, repr(v)))
         out.append((i, reg.kind, reg.extent, tuple(body)))
@@ -38,6 +44,8 @@ def state_key(W, this):
 
 
 def ops_for(cap, tier):
+    """the call alphabet: NTT / INTT (two phase/block settings, two columns) and extendPol over every (N, N_ext) pair with two
+    different column counts - a later call may differ from an earlier one in rows, in columns, or in both"""
     ops = []
     n = 1
     while n <= cap:
@@ -49,31 +57,25 @@ def ops_for(cap, tier):
     while N <= cap:
         Next = N
         while Next <= cap:
-            ops.append(('ext', N, Next, 3, 1))
+            ops.append(('ext', N, Next, 3, 1, 2))
+            ops.append(('ext', N, Next, 3, 1, 3))
             if tier == 'thorough':
-                ops.append(('ext', N, Next, 2, 2))
+                ops.append(('ext', N, Next, 2, 2, 2))
             Next *= 2
         N *= 2
     return ops
 
 
-def run(rep, tier, seed):
-    rep.rule_text = ('reachability over the abstract state of one transform object: starting from the freshly constructed object, every operation of '
-                     'the alphabet {NTT, INTT, extendPol} x sizes x two phase/block settings is applied in every distinct reachable object state '
-                     '(state = all fields and owned tables plus every global written by a call since construction, canonically serialised); each call must deliver exactly the specified coefficient '
-                     'vectors (= what a fresh object delivers, C03-C05), for all input data. Closure of the explored state set under all operations '
-                     'covers every finite call sequence over the alphabet. Shape-independent rules: field write sets per method, memo guard on the '
-                     'cached coset table')
-    ncols = 2
+def explore(rep, tier, caps, rule='history-reachability', sinks_only=False, max_states=300):
+    """reachability closure; -> (states, transitions).  sinks_only: report only memory-safety sinks met on the way (C18)"""
     total_states = 0
     total_trans = 0
-    for cap in ((4, 16) if tier == 'quick' else (4, 16, 64)):
+    for cap in caps:
         R = Runner('avx2')
         W, this, snap0 = R.world(cap, 1)
         ops = ops_for(cap, tier)
         states = {state_key(W, this): snap0}
         order = [snap0]
-        names = {id(snap0): 'fresh'}
         hist = {id(snap0): []}
         qi = 0
         while qi < len(order):
@@ -83,18 +85,23 @@ def run(rep, tier, seed):
                 W.restore(snap)
                 R.worlds[(cap, 1, 1)] = (W, this, snap)
                 if op[0] in ('ntt', 'intt'):
-                    r = R.run_transform(op[0], cap, op[1], ncols, op[2], op[3], False, 'other', 1, restore=False)
+                    r = R.run_transform(op[0], cap, op[1], 2, op[2], op[3], False, 'other', 1, restore=False)
                 else:
-                    r = R.run_extend(cap, op[1], op[2], ncols, op[3], op[4], False, 1, True, restore=False)
+                    r = R.run_extend(cap, op[1], op[2], op[5], op[3], op[4], False, 1, True, restore=False)
                 total_trans += 1
                 h = hist[id(snap)]
                 tag = 'history:cap=%d [%s] then %s' % (cap, ' ; '.join(map(str, h)) or 'fresh', op)
                 if r is None:
-                    rep.ok(tag, 'history-reachability', 'src/ntt_goldilocks.cpp', 'call result equals the specification in this object state')
+                    if not sinks_only:
+                        rep.ok(tag, rule, 'src/ntt_goldilocks.cpp', 'call result equals the specification in this object state')
                 else:
                     st, msg, loc = r
                     site = '%s:%s' % (front.rel(loc[0]), loc[1]) if loc and loc[0] else 'src/ntt_goldilocks.cpp'
-                    (rep.refute if st == 'refuted' else rep.incomplete)(tag, 'history-reachability', site, msg)
+                    is_sink = re.match(r'^(oob|uninit|dealloc|doublefree|null|rowrite|shift|uaf|trap|div)\b', msg or '') is not None
+                    if not sinks_only:
+                        (rep.refute if st == 'refuted' else rep.incomplete)(tag, rule, site, msg)
+                    elif st == 'refuted' and is_sink:
+                        rep.refute(tag, rule, site, msg)
                     continue
                 k = state_key(W, this)
                 if k not in states:
@@ -102,19 +109,32 @@ def run(rep, tier, seed):
                     states[k] = ns
                     order.append(ns)
                     hist[id(ns)] = h + [op]
-                    if len(order) > 200:
-                        rep.incomplete('states:cap=%d' % cap, 'history-reachability', '', 'more than 200 distinct object states')
+                    if len(order) > max_states:
+                        (rep.note if sinks_only else (lambda m: rep.incomplete('states:cap=%d' % cap, rule, '', m)))('more than %d distinct object states (capacity %d)' % (max_states, cap))
                         break
+            if len(order) > max_states:
+                break
         total_states += len(order)
-        rep.sample(dict(capacity=cap, operations=len(ops), distinct_object_states=len(order),
-                        example_history=[str(x) for x in hist[id(order[-1])]]))
-        # leave the world consistent
+        if not sinks_only:
+            rep.sample(dict(capacity=cap, operations=len(ops), distinct_object_states=len(order),
+                            example_history=[str(x) for x in hist[id(order[-1])]]))
         R.worlds[(cap, 1, 1)] = (W, this, snap0)
+    return total_states, total_trans
+
+
+def run(rep, tier, seed):
+    rep.rule_text = ('reachability over the abstract state of one transform object: starting from the freshly constructed object, every operation of '
+                     'the alphabet {NTT, INTT, extendPol} x sizes x two phase/block settings is applied in every distinct reachable object state '
+                     '(state = all fields and owned tables plus every global written by a call since construction, canonically serialised); each call must deliver exactly the specified coefficient '
+                     'vectors (= what a fresh object delivers, C03-C05), for all input data. Closure of the explored state set under all operations '
+                     'covers every finite call sequence over the alphabet. Shape-independent rules: field write sets per method, memo guard on the '
+                     'cached coset table')
+    total_states, total_trans = explore(rep, tier, (4, 16) if tier == 'quick' else (4, 16, 64))
     rep.cov['states'] = total_states
     rep.cov['transitions'] = total_trans
     rep.cov['traces_validated_against_impl'] = 0
     rep.cov['exhaustive'] = True
-    nttrules.run_rules(rep, ('effect', 'memo-guard', 'omp-global'))
+    nttrules.run_rules(rep, ('effect', 'assign', 'memo-guard', 'omp-global'))
     rep.assumptions += ['operation alphabet bounded (sizes <= capacity <= %d, ncols = 2, two phase/block settings); universal in data' % (16 if tier == 'quick' else 64),
                         'the implementation itself is interpreted abstractly (no model is extracted), so no trace validation is needed']
     rep.trusted = ['clang 14 lowering', 'glv interpreter', 'scalar field contracts (C01)', 'GMP model']
